@@ -4,7 +4,7 @@ import random
 
 from .. import gen, harness, mon, ref, runfam
 from ..core import Check, derive_seed
-from ..model import Expr, Ref, Program
+from ..model import Expr, In, Ref, Program
 
 ALPHABET = ["success", "error", "alt", "crash", "deployfail"]
 
@@ -19,6 +19,34 @@ def all_path_outputs(steps, outs):
     return outs
 
 
+def shape_stop_if_never_true(rng):
+    """The worker would be stopped by the checker's error output; with any other outcome of the checker that condition can
+    no longer occur, and whatever the worker then does (also a failed deployment) must still be reported."""
+    c = gen.plugin_step("c", Expr(In("tag")))
+    w = gen.plugin_step("w", Expr(In("tag")), stop_if=Expr(Ref("c", "outputs", "error")))
+    outs = {"success": {"w": gen.tagref("w"), "c": gen.tagref("c")}, "undeployed": {"why": Expr(Ref("w", "deploy_failed", "error", "error"))},
+            "crashed": {"why": Expr(Ref("w", "crashed", "error", "output"))}}
+    return [c, w], outs
+
+
+def loop_after_step_case(rng):
+    """A loop over the result of an earlier step whose items take a while (slow deployment of the sub-workflow's step)."""
+    from ..model import Step
+    nn = rng.choice([2, 3])
+    sub = gen.sub_program("sub.yaml", 1)
+    how = rng.choice(["items", "wait_for"])
+    fe = Step("loop", "foreach", sub=sub, parallelism=rng.choice([1, 2]),
+              items=[{"tag": gen.tagref("a")}] + [{"tag": "k%d" % j} for j in range(nn - 1)] if how == "items" else [{"tag": "k%d" % j} for j in range(nn)])
+    if how == "wait_for":
+        fe.fields["wait_for"] = Expr(Ref("a", "outputs", "success"))
+    steps = [gen.plugin_step("a", Expr(In("tag"))), fe]
+    rng.shuffle(steps)
+    prog = Program(steps, {"success": {"d": Expr(Ref("loop", "outputs", "success", "data"))}, "failed": {"e": Expr(Ref("loop", "failed", "error"))}}, gen.BASE_INPUT)
+    scripts = gen.make_scripts(steps, {})
+    scripts["sub_w0"]["deploys"] = [{}, {"delay_ms": rng.choice([45, 80])}]
+    return {"program": prog, "scripts": scripts, "input": {"tag": "T1"}, "shape": "loop-after-step-slow-items/%s" % how, "outcome": {}}
+
+
 def enumerated(check):
     """Outcome vectors of small shapes: exhaustive in the thorough tier, sampled in the quick tier."""
     shapes = {
@@ -29,6 +57,7 @@ def enumerated(check):
         "wait_for": gen.shape_wait_for,
         "deploy_expr": gen.shape_deploy_expr,
         "multiref": gen.shape_multiref,
+        "stop_if_never_true": shape_stop_if_never_true,
     }
     out = []
     for name, fn in sorted(shapes.items()):
@@ -67,6 +96,8 @@ def run(check):
         g = runfam.gen_terminating(check.seed, "c03-%d" % i, p_fail=0.35, outcomes=["error", "alt", "crash", "drop", "deployfail"])
         if g is not None:
             gs.append(g)
+    for i in range(check.pick(16, 100)):
+        gs.append(loop_after_step_case(random.Random(derive_seed(check.seed, "c03-loopafter", i))))
     # run-time evaluation faults: an output (or a wait-optional field of it, or the input of a step) whose expression
     # cannot be evaluated over the produced values is not producible
     nf = check.pick(80, 1200)
